@@ -17,7 +17,9 @@ RULE = (
     "thread-pool runtime and three asyncio set-ups (coroutine resolvers behind gates, synchronous "
     "resolvers shipped to the loop's executor, and a mix); the deferred runtimes run under a schedule "
     "controller that completes one in-flight resolver at a time: all completion orders are enumerated "
-    "depth-first up to a bound, beyond it seeded random orders are sampled; every outcome is compared "
+    "depth-first up to a bound, beyond it seeded random orders are sampled; a second exploration adds, "
+    "for every pool submission, the choice that the task is already finished when submit() returns; "
+    "every outcome is compared "
     "with the reference executor (ordered data, multiset of error paths), an unexpected exception must "
     "surface as that exception from every configuration and schedule, and when no task is left the "
     "result must be complete (stuck = violation). A stress mode runs a real 8-thread pool with seeded "
@@ -117,8 +119,8 @@ def run_config(ctx, rng, case, config, text, op, variables, ref, base_witness, m
     if config == "threadpool":
         kw["root"] = case.sync.root_value(root_type)
 
-        def run_with(ch):
-            return sched.run_threadpool(ch, case.schema_sync, text, kw)
+        def run_with(ch, eager=False):
+            return sched.run_threadpool(ch, case.schema_sync, text, kw, eager=eager)
     else:
         in_thread = config != "asyncio-coroutines"
         binding = case.sync if config == "asyncio-executor" else case.asyn
@@ -128,15 +130,21 @@ def run_config(ctx, rng, case, config, text, op, variables, ref, base_witness, m
         def setg(g):
             binding.gates = g
 
-        def run_with(ch):
-            return sched.run_asyncio(ch, schema, text, kw, in_thread, setg)
+        def run_with(ch, eager=False):
+            return sched.run_asyncio(ch, schema, text, kw, in_thread, setg, eager=eager)
 
     seen = set()
     n = 0
     exhaustive = True
-    for schedule, (out, trace), exh in sched.explore(run_with, max_exh, n_samples, rng):
+    # second pass: tasks handed to a pool may already be finished when submit() returns
+    passes = [(False, sched.explore(run_with, max_exh, n_samples, rng))]
+    if config != "asyncio-coroutines":
+        passes.append((True, sched.explore(lambda ch: run_with(ch, True), max(4, max_exh // 2), max(2, n_samples // 2), rng)))
+    for eager, schedule, (out, trace), exh in ((e, a, b, c) for e, it in passes for a, b, c in it):
         n += 1
         exhaustive = exhaustive and exh
+        if any(t and t[0] == "done-at-submit" for t in trace):
+            ctx.count("schedules_with_tasks_done_at_submit:" + config)
         ctx.evaluated()
         ctx.count("runs:" + config)
         key = tuple(trace)
@@ -153,7 +161,8 @@ def run_config(ctx, rng, case, config, text, op, variables, ref, base_witness, m
                 ctx.observe("future-resolved-twice (InvalidStateError swallowed by concurrent.futures)")
             if st["pending_at_quiescence"] and out[0] == "ok":
                 ctx.observe("futures-pending-at-quiescence", st["pending_at_quiescence"])
-        w = dict(base_witness, config=config, schedule=schedule, completion_order=[list(map(str, t)) for t in trace])
+        w = dict(base_witness, config=config, schedule=schedule, done_at_submit_choices=eager,
+                 completion_order=[list(map(str, t)) for t in trace])
         if not check_outcome(ctx, ref, out, w, config):
             break
     if exhaustive and n > 1:
